@@ -1,6 +1,10 @@
 package main
 
-import "verifharness/internal/rng"
+import (
+	"path"
+
+	"verifharness/internal/rng"
+)
 
 // generate draws one case: a base program and an edit script.
 func generate(r *rng.R) *caseInput {
@@ -67,5 +71,24 @@ func generate(r *rng.R) *caseInput {
 		}
 	}
 	in.New = e.p
+	// sometimes the same file is kept twice (two API versions side by side) and edited identically:
+	// the diagnostics of the two copies then differ in nothing but the file they are attributed to
+	if r.Chance(1, 8) {
+		addTwin(r, in)
+	}
 	return in
+}
+
+func addTwin(r *rng.R, in *caseInput) {
+	i := r.Intn(len(in.Old.Files))
+	pth := in.Old.Files[i].Path
+	twin := path.Join("twin", path.Base(pth))
+	if in.New.file(pth) == nil || in.Old.file(twin) != nil || in.New.file(twin) != nil {
+		return
+	}
+	o, n := in.Old.clone().file(pth), in.New.clone().file(pth)
+	o.Path, n.Path = twin, twin
+	in.Old.Files = append(in.Old.Files, o)
+	in.New.Files = append(in.New.Files, n)
+	in.Kinds = append(in.Kinds, "twinFile")
 }
